@@ -33,7 +33,12 @@ L dalpha_ds(const ref::Ellipsoid& E, L lat, L azi) {
 }
 L tolS(int solver, const ref::Ellipsoid& E, L tolp, L lat1, L azi1, L lat2, L azi2, bool both_ends, L circ) {
   // 0.1 m^2 is documented for WGS84; area errors scale with the area scale c2 of the ellipsoid
-  L base = (fabsl(E.f) > 0.5L ? 10 : 2) * 0.1L * (E.c2 / 4.0589e13L) * (1 + circ);   // beyond |f| = 0.5 only the order of magnitude is documented: K = 10
+  // beyond |f| = 0.5 only the order of magnitude is documented: K = 10; for the exact solver the relative accuracy of
+  // every output degrades with the eccentricity as tabulated for positions in GeodesicExact.hpp (b/a = 79: 195 x the
+  // WGS84 figure), so the area figure is scaled by the same ratio (thorough-tier case: a = 1, f = -77.96, equatorial
+  // arc of 27 deg, |S12 error| = 1e-13 c2)
+  L degr = solver_exact(solver) ? tol::geod_exact_degr(E.f) : 1;
+  L base = std::max<L>(fabsl(E.f) > 0.5L ? 10 : 2, 2 * degr) * 0.1L * (E.c2 / 4.0589e13L) * (1 + circ);
   if (!solver_exact(solver)) base += 2 * E.a * E.a * C7 * powl(fabsl(E.f), 7);
   L cond = E.c2 * (dalpha_ds(E, lat2, azi2) + (both_ends ? dalpha_ds(E, lat1, azi1) : 0)) * tolp;
   return base + 2 * cond;
@@ -89,7 +94,7 @@ Verdict check_ode(const J& r) {
   L Rmin = std::min(E.b * E.b / E.a, E.a * E.a / E.b);
   if (fabsl((L)s12) / (0.5L * Rmin) > 6000) { v.skip("reference too expensive for this eccentricity/length"); return v; }
   L circ = fabsl((L)a12) / 90;
-  L tolp = (std::fabs(f) > 0.5 ? 4 : 2) * doc_tol(solver, a, f) * (1 + circ);   // K = 4 beyond |f| = 0.5, see C02
+  L tolp = kdoc(solver, a, f) * (1 + circ);   // K = 4 beyond |f| = 0.5, see C02
   // inverse: the reference follows the inverse solution's own azimuth and length from point 1
   ref::OdeResult R = ode.direct(lat1, lon1, useazi1, s12, 0, 0.01L * tolp);
   if (!(R.err <= 0.02L * tolp)) { v.skip("reference not converged"); return v; }
@@ -126,7 +131,7 @@ Verdict check_rev(const J& r) {
   // travel back from point 2: reversed azimuth (azi2 + 180 is rounded; its effect is m12 * ulp)
   Dir b = lib_direct(solver, a, f, o.lat2, o.lon2, o.azi2 + 180, false, o.s12);
   L circ = fabsl((L)o.a12) / 90;
-  L tolp = (std::fabs(f) > 0.5 ? 4 : 2) * doc_tol(solver, a, f) * (1 + circ);   // K = 4 beyond |f| = 0.5, see C02
+  L tolp = kdoc(solver, a, f) * (1 + circ);   // K = 4 beyond |f| = 0.5, see C02
   v.nontrivial = o.s12 != 0; v.tag(solver_exact(solver) ? "exact" : "series");
   L p1[3], pb[3]; ref::to_cart(E, lat1, lon1, p1); ref::to_cart(E, b.lat2, b.lon2, pb);
   L repr = 2.3e-16L * 360 * ref::DEG_L * (fabsl((L)o.m12) + E.a);
@@ -156,7 +161,7 @@ Verdict check_add(const J& r) {
   if (std::fabs(o12.lat2) == 90) { v.skip("split point at a pole"); return v; }
   Dir o23 = lib_direct(solver, a, f, o12.lat2, o12.lon2, o12.azi2, false, o13.s12 - o12.s12);
   L circ = fabsl((L)o13.a12) / 90;
-  L tolp = (std::fabs(f) > 0.5 ? 4 : 2) * doc_tol(solver, a, f) * (1 + circ);   // K = 4 beyond |f| = 0.5, see C02
+  L tolp = kdoc(solver, a, f) * (1 + circ);   // K = 4 beyond |f| = 0.5, see C02
   v.nontrivial = len != 0; v.tag(solver_exact(solver) ? "exact" : "series"); v.tag(t < 1e-2 || t > 1 - 1e-2 ? "split-near-end" : "split-interior");
   L m12 = o12.m12, m23 = o23.m12, M12 = o12.M12, M21 = o12.M21, M23 = o23.M12, M32 = o23.M21;
   v.le(fabsl((L)o13.a12 - ((L)o12.a12 + (L)o23.a12)), 4 * tolp / std::min(E.a, E.b) / ref::DEG_L + 1e-13L * (1 + fabsl((L)o13.a12)), "a13 = a12 + a23 [deg]");
@@ -194,7 +199,7 @@ Verdict check_cfg(const J& r) {
   L circ = fabsl((L)o[0].a12) / 90;
   v.nontrivial = len != 0; v.tag(fclass(f));
   for (int i = 0; i < 3; ++i) for (int j = i + 1; j < 3; ++j) {
-    L tolp = 2 * (doc_tol(i, a, f) + doc_tol(j, a, f)) * (1 + circ);
+    L tolp = (kdoc(i, a, f) + kdoc(j, a, f)) * (1 + circ);
     if (i == 1 && j == 2) tolp = std::min<L>(tolp, 64 * 2.3e-16L * E.a * (1 + circ));
     char nm[64];
     std::snprintf(nm, sizeof nm, "solver%d vs solver%d m12 [m]", i, j); v.le(fabsl((L)o[i].m12 - (L)o[j].m12), 2 * tolp, nm);
